@@ -49,6 +49,7 @@ class Unprojectable(Exception):
     pass
 
 
+_IO_DIR = None    # scratch directory of the file-name based save/load calls
 PENDING_IR = []   # (op, record) of IRs accepted from faulty files, judged by TLC at the end of a stage
 SCHEMA = None   # protomsg.Schema, set by the CLI after the package is built
 
@@ -655,10 +656,28 @@ class Env:
                     out.extend(v.blocks)
         return out
 
-    def save_bytes(self, irid):
+    def save_bytes(self, irid, by_path=False):
+        """IR.save_protobuf_file(stream), or -- every other Reload -- IR.save_protobuf(file name)"""
+        if by_path:
+            import os
+            from .build import workdir
+            global _IO_DIR
+            if _IO_DIR is None:
+                _IO_DIR = workdir("gtirbverif-io-")
+            self._path = os.path.join(_IO_DIR, "ir-%d.gtirb" % os.getpid())
+            self.obj[irid].save_protobuf(self._path)
+            with open(self._path, "rb") as fh:
+                return fh.read()
         buf = io.BytesIO()
         self.obj[irid].save_protobuf_file(buf)
         return buf.getvalue()
+
+    def load_bytes(self, data, by_path=False):
+        if by_path:
+            with open(self._path, "wb") as fh:
+                fh.write(data)
+            return self.g.IR.load_protobuf(self._path)
+        return self.g.IR.load_protobuf_file(io.BytesIO(data))
 
     def _expr_ids(self, ir):
         out = {}
@@ -677,7 +696,9 @@ class Env:
         from gtirb.version import PROTOBUF_VERSION
         old_ir = self.obj[irid]
         old_exprs = self._expr_ids(old_ir)
-        data = self.save_bytes(irid)
+        self._n_reloads = getattr(self, "_n_reloads", 0) + 1
+        by_path = self._n_reloads % 2 == 0
+        data = self.save_bytes(irid, by_path)
         want = None
         mapper = protomsg.Mapper(self, SCHEMA) if SCHEMA is not None else None
         if op is not None and "msg" in op and mapper is not None:
@@ -692,7 +713,7 @@ class Env:
             want = protomsg.canon_msg(op["msg"])
             if got != want:
                 return {"exc": "WriterDisagreesWithSchemaMapping", "msg": _first_diff(want, got)}
-        new_ir = self.g.IR.load_protobuf_file(io.BytesIO(data))
+        new_ir = self.load_bytes(data, by_path)
         # --- C01: deep_eq both ways (judged below, once the loaded content is known to be right)
         deq_loaded = old_ir.deep_eq(new_ir) is True and new_ir.deep_eq(old_ir) is True
         if want is None and not deq_loaded:
